@@ -25,8 +25,8 @@ P = hs.params()
 
 G1 = '''
 start: greeting NAME+ tail?
-greeting: "hello" | "bye"
-tail: "!" NUM
+!greeting: "hello" | "bye"
+tail: "!" NUM | "!" "bye"
 %import .c12common (NAME, NUM)
 %ignore /[ \\n]+/
 '''
@@ -45,6 +45,8 @@ COMMON_V1 = 'NAME: /[a-z]+/\nNUM: /[0-9]+/\n'
 COMMON_V2 = 'NAME: /[b-z]+/\nNUM: /[0-9]+/\n'        # same byte length as V1: a change that stat() metadata cannot reveal
 PROBES = ['hello x .', 'hello abc !7 .', 'hello x', 'jello x', 'hello abc def !7', 'bye a', 'hello 12 ?', 'hello 1 2 !', 'hello', 'hello x !', 'hello a_b', 'hello x ! 7', '', 'hellox', 'byebye x',
           # newlines inside ignored text: line/column of tokens and errors after them
+          # one terminal kept in a ! rule and filtered in another rule
+          'hello x ! bye', 'bye x !bye',
           'hello x\ny !7 .', 'hello\n\nx\n?', 'bye a\n b\n', 'hello 12\n  ?', 'hello x\n!\n7\n.']
 
 if P:
@@ -95,6 +97,13 @@ if P:
     LIB_B = os.path.join(SCRATCH, 'libb')
     os.makedirs(LIB_A)
     os.makedirs(LIB_B)
+    import sys as _sys
+    for _sub, _t in (('letters', COMMON_V1), ('digits', COMMON_V2)):
+        os.makedirs(os.path.join(SCRATCH, 'c12pkg', _sub))
+        with open(os.path.join(SCRATCH, 'c12pkg', _sub, 'c12lib.lark'), 'w') as _f:
+            _f.write(_t)
+    open(os.path.join(SCRATCH, 'c12pkg', '__init__.py'), 'w').close()
+    _sys.path.insert(0, SCRATCH)
     for _d, _t in ((LIB_A, COMMON_V1), (LIB_B, COMMON_V2), (DIR_B, COMMON_V2)):
         with open(os.path.join(_d, 'c12lib.lark' if _d != DIR_B else 'c12common.lark'), 'w') as _f:
             _f.write(_t)
@@ -110,6 +119,9 @@ if P:
         7: (G3, {'import_paths': [LIB_A], 'maybe_placeholders': False}, COMMON_V1, SCRATCH),   # an option whose non-default value is falsy
         8: (G1, {}, COMMON_V1, DIR_B),                               # same text in another directory: the relative import finds another file
         9: (G1, {}, '', SCRATCH),                                    # the imported file emptied: an uncached build fails (NAME is not defined)
+        # the same text, %import resolved by package loaders that differ in their search paths only
+        10: (G3, {'import_paths': [lg.FromPackageLoader('c12pkg', ('letters',))]}, COMMON_V1, SCRATCH),
+        11: (G3, {'import_paths': [lg.FromPackageLoader('c12pkg', ('digits',))]}, COMMON_V1, SCRATCH),
     }
     NCONF = P.get('nconf', len(CONFIGS))
     PINH = P.get('first')
@@ -141,9 +153,9 @@ if P:
         except lg.GrammarError as e:
             return ('build-error', type(e).__name__)
     REF = {c: _ref(c) for c in CONFIGS}
-    assert REF[9] == ('build-error', 'GrammarError') and all(isinstance(REF[c], list) for c in range(9))
+    assert REF[9] == ('build-error', 'GrammarError') and all(isinstance(REF[c], list) for c in CONFIGS if c != 9)
     _same = [(a, b) for a in REF for b in REF if a < b and REF[a] == REF[b]]
-    assert _same in ([], [(3, 8)]), 'configurations must be behaviourally distinct on the probes (3 and 8 share their imported content): %s' % _same
+    assert set(_same) <= {(3, 8), (5, 10), (6, 11)}, 'configurations must be behaviourally distinct on the probes (3/8, 5/10, 6/11 share their imported content): %s' % _same
     MemFS.files.clear()
     build(0, 'cache.bin')
     BASE = MemFS.files['cache.bin']
@@ -319,15 +331,15 @@ def plan(tier, seed):
             slices.append({'id': 'flip:all:%d/32' % part, 'func': 'flip', 'mode': 'realised',
                            'params': {'kind': 'flip', 'positions': 'all', 'part': [part, 32]}, 'timeout': 3000,
                            'twin': part == 0, 'bound': {'positions': 'every byte', 'kinds': [f[0] for f in FLIPS]}})
-    for first in range(10):
+    for first in range(12):
         slices.append({'id': 'hist:len<=3:first%d' % first, 'func': 'hist', 'mode': 'realised', 'params': {'kind': 'hist', 'first': first}, 'timeout': 600,
-                       'twin': first == 0, 'bound': {'builds': 3, 'configurations': 10}})
+                       'twin': first == 0, 'bound': {'builds': 3, 'configurations': 12}})
     meta = {
         'rule': 'one path per (fault kind, position) / per history; non-trivial = the file content actually differs from the valid one / the history mixes configurations',
         'technique': 'CrossHair solver-closed enumeration of fault positions and build histories, realised (pickle.load is a C extension: it realises its input anyway); '
                      'behavioural equivalence with an uncached build on a probe set; rebuild counter on load_grammar',
         'functions_encoded': ['lark.lark.Lark.__init__ (cache load / fallback / save)', 'Lark.save/_load', 'lark.load_grammar.verify_used_files', 'lark.utils.FS (stubbed)'],
-        'bounds': {'probe_inputs': len(PROBES), 'fault_positions': 'opcode boundaries (quick) / every byte (thorough)', 'history_length': 3, 'configurations': 10},
+        'bounds': {'probe_inputs': len(PROBES), 'fault_positions': 'opcode boundaries (quick) / every byte (thorough)', 'history_length': 3, 'configurations': 12},
         'outside_bounds': ['multi-byte corruption', 'file systems that violate the stub contract (torn writes)', 'pickles crafted to execute code'],
         'stubs_and_assumes': ['lark logger silenced (failed cache loads log tracebacks)', 'FS replaced by an in-memory store: open(rb) returns the stored bytes or raises FileNotFoundError; open(wb) replaces the content when closed',
                               'equivalence is judged on %d probe inputs' % len(PROBES)],
